@@ -137,6 +137,9 @@ func runCLI(ctx context.Context, r *report.Run) int {
 			if pkOrderDiffers(stateOf(c.A).Build()) || pkOrderDiffers(stateOf(c.B).Build()) {
 				key = "composite-pk-order-differs-from-column-order"
 			}
+			if A, B := stateOf(c.A).Build(), stateOf(c.B).Build(); (A.HasColumn("t", "q") || B.HasColumn("t", "q")) && squ.OnlyAboutColumn(res[i].p, "q") {
+				key = apostropheKey
+			}
 			r.Violate(key, fmt.Sprintf("CLI A=%v B=%v source=%s: %s", c.A, c.B, c.Source, strings.Join(res[i].p, " | ")), map[string]any{"cli": c})
 		}
 	}
